@@ -4,7 +4,6 @@ import HailVerif.Proofs.CallPack
 /-! `decode ∘ encode = id` on the model of the binary encoding (C33). -/
 set_option linter.unusedSimpArgs false
 set_option linter.unusedVariables false
-set_option maxRecDepth 16384
 namespace HailVerif.ValueEnc
 open HailVerif.TypeStr HailVerif.Values
 
